@@ -1220,7 +1220,11 @@ CONFIG["C07"] = dict(
                "probes, services, interfaces, queued re-runs arbitrary, idle iterations at T, T+250, T+500, T+750 and any "
                "others in between: the probe query for the name leaves on that interface (every family) in exactly the "
                "iterations at T, T+250, T+500 and the probe's records are active after T+750 (probe_schedule_in_daemon, "
-               "probe_query_in_daemon); after "
+               "probe_query_in_daemon); from the registration on, for ANY running daemon state: register(svc) at t0 under "
+               "jitter j creates, for every unique record the daemon does not hold, the probe of its name with start t0+j "
+               "(registration_starts_probe), and with j >= 1 and a timely scheduler the probe queries for that name leave in "
+               "exactly the iterations at t0+j, +250, +500 and the record is active after t0+j+750 "
+               "(registration_probe_lifecycle); after "
                "prepare_announce every unique record is active or in the probe of its name; a new probe starts at now+jitter; "
                "and the complete life cycle (three probes, nothing before, announcements at +750 and +1750 with the stated "
                "content) by kernel evaluation of the model for EVERY jitter 0..249 on a concrete registration and for a spread "
@@ -1231,7 +1235,8 @@ CONFIG["C07"] = dict(
              "probe_timeline, probe_query_content, registration_probes_every_record, registration_probe_times, "
              "probe_end_activates_records, probe_schedule_in_daemon (one probe through iter, any state), "
              "announcement_needs_active, announced_records_active and the evaluated instances (probe_lifecycle_partial); "
-             "missing: the registration step and the two announcements through iter for a symbolic service",
+             "registration_starts_probe, registration_probe_lifecycle (registration -> three probes -> record active, any "
+             "state); missing: the two announcements (at +750 and +1750) through iter for a symbolic service",
              "the history invariant 'an active record was in the authority section of three probe queries 250 ms apart' is "
              "false of the code without a timely scheduler and for shared probes (findings D31, D33, D34): proved instead is "
              "active_only_after_probe (the probe is at least 750 ms old)",
